@@ -128,10 +128,13 @@ impl KeyGen for K256KeyPair {
 
 impl KeySecretBytes for K256KeyPair {
     fn from_secret_bytes(key: &[u8]) -> Result<Self, Error> {
-        if let Ok(key) = key.try_into() {
-            if let Ok(sk) = SecretKey::from_bytes(key) {
-                return Ok(Self::from_secret_key(sk));
-            }
+        // the length must be checked here: converting a slice of any other
+        // length into a `GenericArray` reference panics
+        if key.len() != SECRET_KEY_LENGTH {
+            return Err(err_msg!(InvalidKeyData));
+        }
+        if let Ok(sk) = SecretKey::from_bytes(key.into()) {
+            return Ok(Self::from_secret_key(sk));
         }
         Err(err_msg!(InvalidKeyData))
     }
